@@ -1,6 +1,6 @@
 INIT GInit
 NEXT GNext
 CONSTANTS
-  Len2 = 3
+  Len2 = 2
 INVARIANTS Facts Emit
 CHECK_DEADLOCK FALSE
